@@ -331,6 +331,12 @@ func (f *Future[T]) Wait() T {
 // Wait waits for f to be filled with a value and returns it, or returns ctx.Err() if ctx expires
 // before this happens. Returns immediately if f is already filled.
 func (f *Future[T]) WaitContext(ctx context.Context) (T, error) {
+	// An already filled future wins over an already expired context.
+	select {
+	case <-f.c:
+		return f.x, nil
+	default:
+	}
 	select {
 	case <-ctx.Done():
 		var zero T
